@@ -24,6 +24,7 @@ import (
 	"github.com/trajectoryjp/spatial_id_go/v4/transform"
 
 	"verifmon/core"
+	"verifmon/ref"
 )
 
 // C19 — all operations may be called concurrently.
@@ -72,6 +73,7 @@ type c19Shared struct {
 	strs                     []string
 	emptyCap                 []string // length 0, capacity 8, over a backing array filled with sentinels
 	badList                  []string // valid prefix that expands to > 1000 voxels, then a malformed ID
+	obst, obstExt, probes    []string // 40 obstacle voxels; the same plus 3 more; 3000 probes whose last one overlaps only the extension
 }
 
 func (s *c19Shared) snapshot() string {
@@ -94,7 +96,7 @@ func (s *c19Shared) snapshot() string {
 	for _, q := range append(append([]*object.QuadkeyAndVerticalID{}, s.qv...), s.qvBit...) {
 		fmt.Fprintf(&b, "%v;", *q)
 	}
-	fmt.Fprintf(&b, "%v|%v|%q|%q", *s.eid, s.ints, s.emptyCap[:cap(s.emptyCap)], s.badList)
+	fmt.Fprintf(&b, "%v|%v|%q|%q|%q|%q|%x", *s.eid, s.ints, s.emptyCap[:cap(s.emptyCap)], s.badList, s.obst, s.obstExt, core.HashStr(strings.Join(s.probes, " ")))
 	return b.String()
 }
 
@@ -146,6 +148,14 @@ func c19Build() (*c19Shared, []c19Inst) {
 	backing := []string{"sentinel-0", "sentinel-1", "sentinel-2", "sentinel-3", "sentinel-4", "sentinel-5", "sentinel-6", "sentinel-7"}
 	s.emptyCap = backing[:0]
 	s.badList = []string{"10/5/7/10/3", "10/6/7/10/3", "10/5/8/10/-4", "10/5/7/10"}
+	for i := 0; i < 40; i++ {
+		s.obst = append(s.obst, fmt.Sprintf("18/%d/%d/%d", i-20, 1000+7*i, 2000+3*i))
+	}
+	s.obstExt = append(append([]string{}, s.obst...), "18/5/9000/9000", "18/6/9000/9001", "18/-7/9100/9000")
+	for i := 0; i < 3000; i++ {
+		s.probes = append(s.probes, fmt.Sprintf("20/%d/%d/%d", i%50-25, 100000+i, 200000+2*i))
+	}
+	s.probes = append(s.probes, "20/20/36000/36001") // inside 18/5/9000/9000, which only the extended obstacle list contains
 
 	groupsV := func(g []*object.FromExtendedSpatialIDToQuadkeyAndVerticalID, err error) string {
 		if err != nil {
@@ -310,6 +320,19 @@ func c19Build() (*c19Shared, []c19Inst) {
 		}),
 		I("detector.CheckSpatialIdsArrayOverlap(empty list with capacity)", func() string { g, e := detector.CheckSpatialIdsArrayOverlap(s.emptyCap, s.sp); return fmt.Sprint(g, e) }),
 		I("operated.GetNspatialIdsAroundVoxcels(empty list with capacity)", func() string { return sortedJoin(operated.GetNspatialIdsAroundVoxcels(s.emptyCap, 1, 1)) }),
+		// an obstacle list and its prefix-extension used at the same time (a tree cached for one must not serve the other)
+		I("detector.CheckSpatialIdsArrayOverlap(40 obstacles, 3001 probes)", func() string { g, e := detector.CheckSpatialIdsArrayOverlap(s.obst, s.probes); return fmt.Sprint(g, e) }),
+		I("detector.CheckSpatialIdsArrayOverlap(43 obstacles = the 40 + 3, 3001 probes)", func() string {
+			g, e := detector.CheckSpatialIdsArrayOverlap(s.obstExt, s.probes)
+			return fmt.Sprint(g, e)
+		}),
+		I("detector.CheckSpatialIdsArrayOverlap(43 obstacles, short probe list)", func() string {
+			g, e := detector.CheckSpatialIdsArrayOverlap(s.obstExt, s.probes[:5])
+			return fmt.Sprint(g, e)
+		}),
+		// volume: every invocation asks for the geometry of 2000 rows nobody asked for before (self-checking against the
+		// closed-form row latitude), so that a round touches > 300000 distinct (zoom,row) keys
+		I("shape.GetPointOnExtendedSpatialId(2000 fresh rows, self-checking)", func() string { return c19BulkRows() }),
 		// common / spatial / object
 		I("common.set-helpers", func() string {
 			u, d, i := common.Union(s.ints, s.ints[2:]), common.Difference(s.ints, s.ints[3:]), common.Intersect(s.strs, s.strs[1:])
@@ -711,4 +734,29 @@ func c19Post(env *core.Env, sum *core.Summary) {
 	sum.Extra["race_report_blocks"] = blocks
 	sum.Extra["race_reports_distinct"] = len(seen)
 	sum.Extra["race_log_files"] = len(files)
+}
+
+var c19RowCounter atomic.Int64
+
+// c19BulkRows queries 2000 rows never queried before in this process (zoom 28..31) and checks each answer against the
+// closed-form latitude of the row; returns "ok" or the first mismatch.
+func c19BulkRows() string {
+	base := c19RowCounter.Add(2000) - 2000
+	z := int64(28 + base/2000%4)
+	for i := int64(0); i < 2000; i++ {
+		y := (base*7919 + i*104729) % pow2(z)
+		if y < 0 {
+			y += pow2(z)
+		}
+		id := ref.ID{H: z, X: (base + i) % pow2(z), Y: y, V: 10, F: 3}
+		pts, err := shape.GetPointOnExtendedSpatialId(id.Ext(), enum.Vertex)
+		if err != nil || len(pts) != 8 {
+			return fmt.Sprintf("row %d at zoom %d: %d points, err %v", y, z, len(pts), err)
+		}
+		n, so := ref.LatOfRow(float64(y), z), ref.LatOfRow(float64(y+1), z)
+		if math.Abs(pts[0].Lat()-n) > 1.2e-10 || math.Abs(pts[2].Lat()-so) > 1.2e-10 {
+			return fmt.Sprintf("row %d at zoom %d: north %v south %v, closed form %v %v", y, z, pts[0].Lat(), pts[2].Lat(), n, so)
+		}
+	}
+	return "ok"
 }
